@@ -19,6 +19,8 @@ ID = "C12"
 LEVEL = "exploration"
 TECHNIQUE = ('deterministic simulation of interleavings: engine A (generator steps and statement-level nesting chosen by the tape, neighbour faults), engine B (real threads, baton passing, settrace line-event pre-emption), child interpreters under four PYTHONHASHSEED values; oracle = bytes of the solo run')
 LEVEL_NOTE = ('seeded search over schedules; pre-emption only at Python line boundaries inside pyjelly')
+OPTIMIZED_EVERY = 25      # every 25th run is executed in a child interpreter started with python -O
+COMPILED_EVERY = 25       # every 25th run (offset 12) is executed in a child that imports a mypyc build of the tree
 RUNS = {"quick": 8000, "thorough": 120000}
 CHUNK = 40
 RULE = ("2-4 independent workloads (serialize / parse, either integration, sometimes sharing one SerializerOptions "
